@@ -7,7 +7,7 @@ def shape_cached_descent_min : Bool := true
 def shape_ds_bounds_lease : Bool := true
 def shape_hit_does_not_store : Bool := true
 def shape_lease_anchored_at_observation : Bool := true
-def shape_lease_clamped_at_observation : Bool := false
+def shape_lease_clamped_at_observation : Bool := true
 def shape_notecut_after_each_cut : Bool := true
 def shape_observed_before_validate : Bool := true
 def shape_provisional_bounded_by_cut : Bool := true
